@@ -14,9 +14,17 @@
   Colours are `Nat`s; a style is `(fill?, stroke?, width, alignment)`.
   Outer `none` = a loop bound of `Line::extents` or of `StyledPixelsIterator::next` was exceeded
   ("stuck"); it never happens: `triStyledBoundingBox_total`, `triDraw_total`, `triPixels_total`
-  (EG/Lemmas/JoinsTotalTri.lean), for every triangle and style.
-  `ScanlineIterator::next` is not fused: a row without any intersection ends a `for` loop
-  (`toList` = what the `for` loop of `draw_styled` / `pixels()` sees).
+  (EG/Lemmas/JoinsTotalTri.lean), for every triangle and style. The fuels of the drains (`toList`,
+  `triPixelFuel`) are never used up either: the lists are complete (EG/Lemmas/C01ThickTri.lean).
+  `ScanlineIterator::next` is NOT fused, and the model keeps that: `TriScanlines.next` returns the
+  successor state together with `None` (a row of the box without any intersection gives `None`, the
+  following call goes on with the row after it). `draw_styled`'s `for` loop stops at the first
+  `None` (`TriScanlines.toList`); `StyledPixelsIterator::new` calls `next()` once, forgives a `None`
+  (empty current line) and KEEPS the advanced iterator, `StyledPixelsIterator::next` stops at the
+  first `None` it sees itself (`?`). So the two renderers differ exactly if the first call returns
+  `None` and the second does not, i.e. if the first TWO rows of the styled bounding box have no
+  scanline and a later row has a coloured one. EG/Lemmas/TriTopRow.lean proves that the FIRST row
+  always has a scanline (unless no row has one): the case does not exist.
 -/
 import EG.Model.ThickSegment
 namespace EG
@@ -292,25 +300,41 @@ def new (triangle : Tri) (strokeWidth : Nat) (strokeOffset : StrokeOffset) (hasF
     pure ⟨rowsStart + 1, rowsEnd, rowsStart, intersections⟩
   else some empty
 
-/-- `Iterator::next`: `self.intersections.next().or_else(|| { next row; reset; next })`. -/
-def next (it : TriScanlines) : Option (Option ((Scanline × PointType) × TriScanlines)) :=
+/-- `Iterator::next`: `self.intersections.next().or_else(|| { self.scanline_y = self.rows.next()?;
+reset; self.intersections.next() })`. NOT fused — the state after the call is returned with `None`
+as well:
+* the current row still has a scanline: that scanline, same row;
+* the current row is used up and `rows` is exhausted: `None`, state unchanged (`?` leaves before any
+  assignment; `ScanlineIntersections::next` changes nothing when it returns `None`);
+* otherwise ONE row further (`scanline_y`, `reset_with_new_scanline`): the first scanline of that row —
+  or `None` if that row has no intersection at all, with the iterator now standing ON that row, so
+  that the following call moves on to the row after it. -/
+def next (it : TriScanlines) : Option (Option (Scanline × PointType) × TriScanlines) :=
   match it.intersections.next with
-  | some (r, ints) => some (some (r, { it with intersections := ints }))
+  | some (r, ints) => some (some r, { it with intersections := ints })
   | none =>
     if it.rowsStart < it.rowsEnd then do
       let y := it.rowsStart
       let ints ← it.intersections.resetWithNewScanline y
       let it := { it with rowsStart := y + 1, scanlineY := y, intersections := ints }
       match ints.next with
-      | some (r, ints) => pure (some (r, { it with intersections := ints }))
-      | none => pure none
-    else some none
+      | some (r, ints) => pure (some r, { it with intersections := ints })
+      | none => pure (none, it)
+    else some (none, it)
+
+/-- One `next()` call as seen by a caller that STOPS at the first `None` (a `for` loop; the `?` of
+`StyledPixelsIterator::next`): the successor state is of interest only with `Some`. -/
+def nextLoop (it : TriScanlines) : Option (Option ((Scanline × PointType) × TriScanlines)) :=
+  match it.next with
+  | none => none
+  | some (none, _) => some none
+  | some (some r, it') => some (some (r, it'))
 
 /-- What a `for` loop sees (the prefix up to the first `None`). -/
 def toListFuel : Nat → TriScanlines → Option (List (Scanline × PointType))
   | 0, _ => some []
   | fuel + 1, it => do
-    match ← it.next with
+    match ← it.nextLoop with
     | none => pure []
     | some (r, it') =>
       let rest ← toListFuel fuel it'
@@ -357,17 +381,19 @@ structure TriPixels where
 
 namespace TriPixels
 
-/-- `StyledPixelsIterator::new`. -/
+/-- `StyledPixelsIterator::new`: `lines_iter.next().unwrap_or_else(|| (Scanline::new_empty(0),
+PointType::Stroke))` — the iterator is kept as that call left it, also when it returned `None`. -/
 def new (t : Tri) (style : TriStyle) : Option TriPixels := do
   let linesIter ← triScanlines t style
-  let (currentLine, pointType, linesIter) ←
-    match ← linesIter.next with
-    | some ((l, ty), it) => pure (l, ty, it)
-    | none => pure (Scanline.newEmpty 0, PointType.stroke, linesIter)
+  let (first, linesIter) ← linesIter.next
+  let (currentLine, pointType) := first.getD (Scanline.newEmpty 0, PointType.stroke)
   pure { linesIter, currentLine, currentColor := style.colorOf pointType
          fillColor := style.fillColor, strokeColor := style.effectiveStrokeColor }
 
-/-- `Iterator::next`: the `loop` (one iteration per scanline; `fuel` bounds it). -/
+/-- `Iterator::next`: the `loop` (one iteration per scanline; `fuel` bounds it);
+`self.lines_iter.next()?` ends the call with `None` at the first `None` of the scanline iterator
+(`nextLoop`). Like every pixel iterator of the model this is the view of `draw_iter` / `collect`,
+which stop at the first `None`: no successor state is given with `None`. -/
 def nextFuel : Nat → TriPixels → Option (Option ((Pt × Nat) × TriPixels))
   | 0, _ => none
   | fuel + 1, it =>
@@ -381,7 +407,7 @@ def nextFuel : Nat → TriPixels → Option (Option ((Pt × Nat) × TriPixels))
     match hit with
     | some r => some (some r)
     | none =>
-      match it.linesIter.next with
+      match it.linesIter.nextLoop with
       | none => none
       | some none => some none
       | some (some ((nextLine, nextType), li)) =>
@@ -405,13 +431,21 @@ def toListFuel : Nat → TriPixels → Option (List (Pt × Nat))
 
 end TriPixels
 
-/-- `triangle.into_styled(style).pixels()` in emission order. Budget: three scanlines per row of at
-most the width of the box plus twice the stroke width (generous; exhausting it would show as a
-correspondence disagreement). -/
+/-- Fuel for draining `pixels()` in the model (one unit per pixel, one to see the final `None`): the
+total length of the scanlines a `for` loop over a fresh `ScanlineIterator` sees. Every pixel of
+`pixels()` is a point of one of those scanlines, so the fuel is never used up
+(`C01Thick.triPixels_eq_run`, EG/Lemmas/C01ThickTri.lean: `triPixels` is the COMPLETE pixel run). -/
+def triPixelFuel (t : Tri) (style : TriStyle) : Option Nat := do
+  let li ← triScanlines t style
+  let lines ← li.toList
+  pure ((lines.map (fun x => (x.1.xe - x.1.xs).toNat)).sum + 1)
+
+/-- `triangle.into_styled(style).pixels()` in emission order (as `collect` / `draw_iter` see it: up to
+the first `None`). -/
 def triPixels (t : Tri) (style : TriStyle) : Option (List (Pt × Nat)) := do
-  let bb ← triStyledBoundingBox t style
+  let fuel ← triPixelFuel t style
   let it ← TriPixels.new t style
-  it.toListFuel (3 * (bb.size.w + 2 * style.strokeWidth + 4) * (bb.size.h + 1) + 2)
+  it.toListFuel fuel
 
 end Joins
 end EG
